@@ -46,6 +46,10 @@ def reader_table(F, fid):
                     if x[0] == "call" and (x[2] or "").rsplit("::", 1)[-1] in ("deserialize", "deserialize_with_version", "deserialize_nullable") and e["type"] is None:
                         c = x[2]
                         e["type"] = F.key(c).split(" as ")[0].lstrip("<") if c in F.fns else c
+                    if x[0] == "call" and (x[2] or "").startswith("ctor:") and x[2].rsplit("::", 1)[-1] not in ("Ok", "Some", "Err") and "Failure" not in x[2] and "Error" not in x[2] and "Key::" not in x[2]:
+                        e.setdefault("ctors", []).append(x[2][5:])
+                    if x[0] == "path" and isinstance(x[2], list) and x[2][0] == "def" and x[2][1] == "Ctor" and "Failure" not in str(x[2][2]) and "CBORSpecial" not in str(x[2][2]) and "cbor_event" not in str(x[2][2]):
+                        e.setdefault("unit_ctors", []).append(x[2][2])
                     if x[0] == "if" and "DuplicateKey" in str(x[3]):
                         e["dup_check"] = True
                     if x[0] == "call" and (x[2] or "").endswith("DuplicateKey"):
@@ -57,6 +61,8 @@ def reader_table(F, fid):
     for n in H.walk(body):
         if n[0] == "mcall" and n[2] == "finish" and "read_len" in (H.path_str(n[4]) or ""):
             out["finish"] = True
+        if n[0] == "mcall" and n[2] == "array" and H.path_str(H.strip(n[4])) in ("raw", "deserializer"):
+            out["has_array"] = True
         if n[0] == "call" and (n[2] or "").endswith("MandatoryFieldMissing"):
             for y in H.walk(n):
                 v = H.lit_int(y)
@@ -80,4 +86,99 @@ def reader_table(F, fid):
             total += v or 0
     out["upfront"] = total
     # mandatory via `match local { Some(x) => x, None => return Err(MandatoryFieldMissing(k)) }` already covered
+    return out
+
+
+RAW_PRIMS = {"unsigned_integer", "negative_integer", "bytes", "text", "bool", "special", "float", "array", "map", "tag", "cbor_type"}
+
+
+def _mentions_raw(n):
+    for x in H.walk(n):
+        if x[0] == "path" and H.path_str(x) in ("raw", "deserializer", "reader"):
+            return True
+    return False
+
+
+def _lets(body):
+    """let statements in source order (pre-order over blocks, closures included)"""
+    out = []
+
+    def rec(n):
+        if not H.is_node(n):
+            return
+        if n[0] == "block":
+            for st in n[2]:
+                if st[0] == "let":
+                    out.append(st)
+                    if st[3] is not None:
+                        rec(st[3])
+                    if st[4] is not None:
+                        rec(st[4])
+                else:
+                    rec(st[2])
+            if n[3] is not None:
+                rec(n[3])
+            return
+        for c in H.children(n):
+            rec(c)
+
+    rec(body)
+    return out
+
+
+def array_reader(F, fid):
+    """facts about a fixed-shape (array / embedded group) reader:
+    lens        literal lengths handed to check_len
+    read_elems  literals handed to CBORReadLen::read_elems (in source order)
+    order       [(local, first raw-consuming callee short name)] for every `let local = <expr reading from raw>`
+    struct      {field: local} of the value the reader builds (largest struct literal), struct_ty
+    index_refs  enum-variant paths `XIndexNames::V` referenced
+    """
+    h = F.hir.get(fid)
+    if h is None:
+        return None
+    body = h["body"]
+    out = {"lens": [], "read_elems": [], "order": [], "struct": {}, "struct_ty": None, "index_refs": set(), "finish": False, "ctor": None}
+    for n in H.walk(body):
+        if n[0] == "call" and (n[2] or "").endswith("::check_len"):
+            out["lens"].append(H.lit_int(n[4][1]))
+        if n[0] == "mcall" and n[2] == "read_elems":
+            out["read_elems"].append(H.lit_int(n[5][0]) if n[5] else None)
+        if n[0] == "mcall" and n[2] == "finish":
+            out["finish"] = True
+        if n[0] == "path" and isinstance(n[2], list) and n[2][0] == "def" and "IndexNames::" in str(n[2][2]):
+            out["index_refs"].add(n[2][2].split("IndexNames::")[-1])
+        if n[0] == "struct" and len(n[3]) >= 1:
+            fields = {f[0]: H.path_str(f[1]) for f in n[3]}
+            if all(v and "." not in v for v in fields.values()) and len(fields) > len(out["struct"]):
+                out["struct"] = fields
+                out["struct_ty"] = n[5] if len(n) > 5 else None
+    for st in _lets(body):
+        names = H.pat_bindings(st[2])
+        if not names or st[3] is None or not _mentions_raw(st[3]):
+            continue
+        first = None
+        for x in H.walk(st[3]):
+            if x[0] == "call" and x[4] and not (x[2] or "").startswith("ctor:") and any(H.path_str(H.strip(a)) in ("raw", "deserializer", "reader") for a in x[4]):
+                first = x[2]
+                break
+            if x[0] == "mcall" and x[2] in RAW_PRIMS and _mentions_raw(x[4]):
+                first = "raw." + x[2]
+                break
+        if first is None:
+            continue
+        out["order"].append((names, first))
+    return out
+
+
+def delegates(F, fid):
+    """crate-local callees of a reader that receive the raw deserializer (the functions a thin reader forwards to)"""
+    h = F.hir.get(fid)
+    out = []
+    if h is None:
+        return out
+    for x in H.walk(h["body"]):
+        if x[0] == "call" and x[2] in F.hir and x[2] != fid and any(H.path_str(H.strip(a)) in ("raw", "deserializer", "reader") for a in x[4]):
+            if x[2] not in out:
+                out.append(x[2])
     return out
